@@ -288,36 +288,46 @@ def replay(arg):
     events = {name: [] for name, _, _ in runs}
     n_eval = 0
 
-    def log(evname, op, exc, post):
+    alive = {name: True for name, _, _ in runs}
+
+    def log(evname, op, exc, post, bare):
+        """one event per living run; runs in `bare` end here without observation
+        (the specification leaves the object unspecified after this call, or
+        rejects the run at this event)"""
         nonlocal n_eval
-        ref = fit_reference(variant, X, post)
+        full = [r for r in runs if alive[r[0]] and r[0] not in bare]
+        ref = fit_reference(variant, X, post) if full else None
         robs = [] if ref is None else observe(ref, n, freq, False, X=X)
         fb = bool(ref is not None and getattr(ref, "is_fitted_", True) is False)
         obs = {}
-        for name, c, w in runs:
+        for name, c, w in full:
             obs[name] = observe(w, n, freq, per_sample=(name == "main" and su))
             n_eval += 3 * n
         for name, c, w in runs:
+            if not alive[name]:
+                continue
+            if name in bare:
+                events[name].append({"ev": evname[name], "op": op, "exc": exc[name], "st": project_state(w),
+                                     "refset": [], "refseg": [], "obs": [], "ref": [], "fb": False, "twin": []})
+                alive[name] = False
+                continue
             e = {"ev": evname[name], "op": op, "exc": exc[name], "st": project_state(w),
                  "refset": post["cur"], "refseg": post["seg"], "obs": obs[name], "ref": robs, "fb": fb,
-                 "twin": obs["twin"] if (name == "main" and su and ref is not None) else []}
+                 "twin": obs["twin"] if (name == "main" and "twin" in obs and ref is not None) else []}
             events[name].append(e)
 
     noop = {"op": "Init", "a": {"I": [], "Y": [], "W": []}, "useBase": False, "setBase": False,
             "pre": {"F": [], "P": [], "fp": "all", "pp": "all"}}
-    log({k: "Init" for k in events}, noop, {k: "" for k in events}, init_post(cfg))
+    log({k: "Init" for k in events}, noop, {k: "" for k in events}, init_post(cfg), set())
     for h in beh["hist"]:
         op = h["op"]
-        exc = {name: do_call(w, op, as_array) for name, c, w in runs}
-        evname = {name: ("Raised" if exc[name] else op["op"]) for name in exc}
-        if h["why"] not in ("ok", "dup", "notfitted") or any(exc[k] and h["why"] == "ok" for k in exc):
-            # the specification leaves the object unspecified after this call
-            # (or rejects the run at this event): last event, no observation
-            for name, c, w in runs:
-                events[name].append({"ev": evname[name], "op": op, "exc": exc[name], "st": project_state(w),
-                                     "refset": [], "refseg": [], "obs": [], "ref": [], "fb": False, "twin": []})
+        living = [r for r in runs if alive[r[0]]]
+        if not living:
             break
-        log(evname, op, exc, h["post"])
+        exc = {name: do_call(w, op, as_array) for name, c, w in living}
+        evname = {name: ("Raised" if exc[name] else op["op"]) for name in exc}
+        bare = {name for name in exc if h["why"] not in ("ok", "dup", "notfitted") or (exc[name] and h["why"] == "ok")}
+        log(evname, op, exc, h["post"], bare)
 
     traces = []
     for name, c, w in runs:
@@ -349,11 +359,15 @@ def _corrupt(trace, how):
 
 
 # --------------------------------------------------------------------------
+FAMILY = {"pwc-default": "pwc", "pwc-gamma": "pwc", "pwc-knn": "pwc", "pwc-gamma-mean": "pwc-gamma-mean",
+          "nb-default": "nb", "nb-smooth": "nb", "lr-default": "lr", "lr-C10": "lr"}
+
+
 def config_class(tr):
     c = tr["cfg"]
     su = int(bool(c["su"]) and c["kind"] == "pwc")
     native = int(c["kind"] == "nb" and not c["ipf"])
-    return "%s,speedup=%d,native_partial_fit=%d,prefitted=%d" % (tr["variant"], su, native,
+    return "%s,speedup=%d,native_partial_fit=%d,prefitted=%d" % (FAMILY[tr["variant"]], su, native,
                                                                   int(c["prefit"] != "none"))
 
 
@@ -404,32 +418,34 @@ def main(tier="quick", seed=0):
         "counts (random draw in the library)",
     ]
 
-    # ---- (M) exhaustive model checking of the design --------------------------------
+    # ---- (M) exhaustive model checking of the design (runs while behaviours are
+    # generated and replayed) -----------------------------------------------------
     mcs = ["MC_IndexWrapper_d4.cfg", "MC_IndexWrapper.cfg"] if quick else \
         ["MC_IndexWrapper_d4n.cfg", "MC_IndexWrapper_wide.cfg"]
-    with ThreadPoolExecutor(max_workers=len(mcs)) as ex:
-        futs = [ex.submit(_mc, c, 8) for c in mcs]
-        # ---- (G) behaviours -----------------------------------------------------
-        gen_cfg = "IndexWrapper_gen.cfg" if quick else "IndexWrapper_gen3.cfg"
-        exh = chk.generate("MC_IndexWrapper", gen_cfg)
-        n_sim, per = (4, 700) if quick else (12, 2500)
-        with ThreadPoolExecutor(max_workers=n_sim) as ex2:
-            sims = list(ex2.map(_sim, [(1000 * seed + k + 1, per) for k in range(n_sim)]))
-        results = [f.result() for f in futs]
-    for cfgname, res in results:
-        chk.states += res.distinct
-        chk.transitions += res.generated
-        chk.mc_runs.append({"module": "MC_IndexWrapper", "cfg": cfgname, "distinct_states": res.distinct,
-                            "states_generated": res.generated, "depth": res.depth, "wall_s": round(res.wall, 2)})
+    mc_pool = ThreadPoolExecutor(max_workers=len(mcs))
+    futs = [mc_pool.submit(_mc, c, 6 if quick else 8) for c in mcs]
+    # ---- (G) behaviours ---------------------------------------------------------
+    gen_cfg = "IndexWrapper_gen.cfg" if quick else "IndexWrapper_gen3.cfg"
+    exh_all = chk.generate("MC_IndexWrapper", gen_cfg)
+    n_sim, per = (4, 400) if quick else (12, 2500)
+    with ThreadPoolExecutor(max_workers=n_sim) as ex2:
+        sims = list(ex2.map(_sim, [(1000 * seed + k + 1, per) for k in range(n_sim)]))
     walks = []
     for res in sims:
         walks.extend(res.json_lines)
+        chk.transitions += res.generated
         chk.mc_runs.append({"module": "MC_IndexWrapper", "cfg": "IndexWrapper_sim.cfg (-simulate)",
                             "generated_cases": len(res.json_lines), "wall_s": round(res.wall, 2)})
-    chk.extra["behaviours"] = {"exhaustive": len(exh), "random_walks": len(walks)}
+    rng = np.random.default_rng(seed)
+    n_exh = 1800 if quick else 60000
+    if len(exh_all) > n_exh:     # seeded subset of the exhaustive enumeration
+        exh = [exh_all[i] for i in sorted(rng.choice(len(exh_all), size=n_exh, replace=False))]
+    else:
+        exh = exh_all
+    chk.extra["behaviours"] = {"exhaustive_enumerated": len(exh_all), "exhaustive_replayed": len(exh),
+                               "random_walks": len(walks)}
 
     # ---- concretise: behaviour x classifier variant x geometry -----------------------
-    rng = np.random.default_rng(seed)
     corrupt = os.environ.get("VERIF_C19_CORRUPT", "")
     geoms = ["generic", "grid", "dup", "generic"]
     items = []
@@ -447,6 +463,13 @@ def main(tier="quick", seed=0):
                 items.append((beh, v, g, int(rng.integers(1 << 30)), "%s%d-s%d" % (src, b, seed),
                               corrupt if (corrupt and len(items) == 7) else ""))
     out = pmap(replay, items)
+    for f in futs:
+        cfgname, res = f.result()
+        chk.states += res.distinct
+        chk.transitions += res.generated
+        chk.mc_runs.append({"module": "MC_IndexWrapper", "cfg": cfgname, "distinct_states": res.distinct,
+                            "states_generated": res.generated, "depth": res.depth, "wall_s": round(res.wall, 2)})
+    mc_pool.shutdown()
     traces = []
     for trs, n_eval in out:
         traces.extend(trs)
